@@ -238,6 +238,40 @@ def run_post(carrier, Mbh, Nbh, ret_dyn, rfac, T):
     return ("Ok", list(map(float, obj.Mr.BH[0])), list(map(float, obj.Nr.BH[0]))), rec
 
 
+def run_post_rows(carrier, Mbh, Nbh, ret_dyn, rfac, Ts):
+    """The same, on a schedule of several ages (the solver state holds the same BHs at each of them): one output per row."""
+    emf, masses, ifmr, kicks = U.mods()
+    obj = copy.copy(carrier)
+    obj.BH_ret_dyn = ret_dyn
+    obj.natal_kicks = rfac is not None
+    obj.tout = np.array(Ts, dtype=float)
+    obj.t = np.sort(obj.tout)
+    mb = obj.massbins
+    y0 = mb.initial_values(N0=obj.N0)
+    Ns, alpha, Nr, Mr = mb.unpack_values(y0.copy(), grouped_rem=True)
+    Nr.BH[:] = Nbh
+    Mr.BH[:] = Mbh
+    yT = mb.pack_values(Ns, alpha, *Nr, *Mr)
+    recs = []
+
+    def fake_kicks(Mr_BH, Nr_BH, **kw):
+        ej = 0.0
+        for j in range(Mr_BH.size):
+            ej += Mr_BH[j] * (1 - rfac[j])
+            Mr_BH[j] *= rfac[j]
+            Nr_BH[j] *= rfac[j]
+        recs.append(dict(after=(list(map(float, Mr_BH)), list(map(float, Nr_BH))), kicked=float(ej)))
+        return Mr_BH, Nr_BH, ej
+
+    with U.fake_ode(lambda t, y0_: yT), U.patched(emf.kicks, "natal_kicks", fake_kicks):
+        try:
+            obj._evolve()
+        except ValueError as e:
+            tag = "PostErrKicks" if "Natal kicks already removed" in str(e) else "PostErrEject"
+            return [("Err", tag, None)] * len(Ts), recs
+    return [("Ok", list(map(float, obj.Mr.BH[i])), list(map(float, obj.Nr.BH[i]))) for i in range(len(Ts))], recs
+
+
 def oracle_post(chk, case, out, rec):
     M, N = case["M"], case["N"]
     ret, formed = case["ret_dyn"], case["formed"]
@@ -344,6 +378,33 @@ def run(chk):
         precs.append(rec)
         chk.note_distinct(case)
         oracle_post(chk, case, out, rec)
+    # ---- several output ages: every row is processed on its own (no carry-over of ejections or kicks between rows) ----
+    for k in range(n_post // 4):
+        car = cars[k % len(cars)]
+        nb = car.massbins.nbin.BH
+        M, N = gen_array(rng, nmax=nb)
+        M = (M + [0.0] * nb)[:nb]
+        N = (N + [0.0] * nb)[:nb]
+        if M[0] == 0:
+            M[0], N[0] = 40.0 * rng.uniform(0.5, 2), rng.uniform(1, 5)
+        ret = rng.choice([1.0, 0.5, 0.3 + 0.6 * rng.random(), 0.8])
+        rf = [rng.choice([1.0, 1 - 0.2 * rng.random()]) for _ in range(nb)] if rng.random() < 0.5 else None
+        Ts = rng.sample([12000.0, 9000.0, 3000.0, 100.0, 1.0], rng.choice([2, 3]))
+        outs, recs = run_post_rows(car, M, N, ret, rf, Ts)
+        formed_recs = iter(recs)
+        for irow in np.argsort(Ts):            # rows are processed in time order; one kick record per formed row
+            T = Ts[irow]
+            case = dict(car=k % len(cars), M=M, N=N, ret_dyn=ret, rfac=rf, T=T, formed=T > 5.0, schedule=Ts, row=int(irow))
+            rec = next(formed_recs, {}) if (rf is not None and T > 5.0) else {}
+            if outs[irow][0] == "Err" and T <= 5.0:
+                continue      # the construction raised at a later (formed) row: that row is judged, by the single-row rules
+            chk.note_distinct(case)
+            pcases.append(case)
+            pimpl.append(outs[irow])
+            precs.append(rec)
+            oracle_post(chk, case, outs[irow], rec)
+            if outs[irow][0] == "Err":
+                break
     exprs = []
     for c, rec in zip(pcases, precs):
         kicked = "None"
